@@ -30,6 +30,45 @@ pub fn cases(rng: &mut Rng, tier: &str) -> (Vec<Case>, bool) {
         }
         cases.push(Case { ops, checks, tag: "fmt+parse".into(), nontrivial: true, show: format!("{:?}…", &chunk[..chunk.len().min(4)]) });
     }
+    // NumLaws.leadingPoint (C14More2): a numeral written with a leading point parses to x whose Display is "0", "1" or
+    // "0."+tl, and the spelling LIST uses after an identifier (".0", ".99999999999999999999", "."+tl) parses back to x
+    let mut fracs: Vec<String> = vec![".0", ".00", ".5", ".25", ".1", ".99999999999999999999", ".9999999999999999", ".99999999999999995", ".99999999999999994", ".999999999999999944488848768742172978818416595458984375", ".000000000000000000001", ".3", ".30000000000000004"].into_iter().map(String::from).collect();
+    for _ in 0..(n / 6) {
+        let len = rng.range(1, 40);
+        let mut d = String::from(".");
+        for _ in 0..len {
+            d.push(rng.pick(&['0', '1', '5', '9', '9', '9', '3', '7']));
+        }
+        fracs.push(d);
+    }
+    for chunk in fracs.chunks(100) {
+        let mut ops = vec![];
+        let mut checks = vec![];
+        for d in chunk {
+            let x: f64 = d.parse().unwrap();
+            ops.push(format!("parse {}", hexs(d)));
+            checks.push(format!("reply-is {} {}", ops.len() - 1, enc_f64(x)));
+            ops.push(format!("fmt {}", enc_f64(x)));
+            let t = format!("{}", x);
+            let spelling = if t == "0" {
+                Some(".0".to_string())
+            } else if t == "1" {
+                Some(".99999999999999999999".to_string())
+            } else if t.starts_with("0.") {
+                Some(t[1..].to_string())
+            } else {
+                None
+            };
+            match spelling {
+                Some(sp) => {
+                    ops.push(format!("parse {}", hexs(&sp)));
+                    checks.push(format!("reply-is {} {}", ops.len() - 1, enc_f64(x)));
+                }
+                None => checks.push(format!("reply-is {} leading-point-numeral-displays-as-{}", ops.len() - 1, t)),
+            }
+        }
+        cases.push(Case { ops, checks, tag: "leading-point".into(), nontrivial: true, show: format!("{:?}…", &chunk[..chunk.len().min(3)]) });
+    }
     // malformed and unusual numerals
     let odd = ["", ".", "+", "1e", "e1", "1..2", "1.2.3", "0x10", "1 ", " 1", "1_0", "inf", "INF", "Infinity", "nan", "-nan", "1e400", "1e-400", "007", ".5", "5.", "1E5", "+5", "-0", "١"];
     let mut ops = vec![];
